@@ -141,6 +141,19 @@ pub fn compile_rasn(sources: &[String], config: RasnConfig) -> (Outcome, Vec<Top
     (finish(r), ir)
 }
 
+/// Compile with the compiler's own backend type, not through the tapping wrapper: a wrapper forwards the trait methods it
+/// knows, so a method the compiler adds to the Backend trait (with a default body) would silently take the default here
+pub fn compile_rasn_plain(sources: &[String], config: RasnConfig) -> Outcome {
+    let r = catch_unwind(AssertUnwindSafe(|| {
+        let mut c = Compiler::<RasnBackend, _>::new_with_config(config).add_asn_literal(sources[0].clone());
+        for s in &sources[1..] {
+            c = c.add_asn_literal(s.clone());
+        }
+        c.compile_to_string()
+    }));
+    finish(r)
+}
+
 pub fn compile_rasn1(source: &str) -> (Outcome, Vec<ToplevelDefinition>) {
     compile_rasn(&[source.to_string()], RasnConfig::default())
 }
